@@ -21,7 +21,16 @@ pub fn pkgdb(input: &Value) -> Out {
     let root = scratch_dir();
     let db = root.join("pkgdb");
     let kind = input["root"].as_str().unwrap_or("dir").to_string();
-    let content = |ent: &MetadataEntry, name: &str, empty: bool| if empty { String::new() } else { format!("{} of {}\n", ent.to_filename(), name) };
+    let bigs: Vec<String> = input["entries"].as_array().map(|a| a.iter().filter(|e| e["big"] == "T").map(|e| to_string(&e["name"])).collect()).unwrap_or_default();
+    let content = |ent: &MetadataEntry, name: &str, empty: bool| {
+        if empty { String::new() }
+        else if bigs.iter().any(|b| b == name) {
+            // longer than 8 KiB, a two-byte character across the 8192nd byte, more text after it
+            let head = format!("{} of {}\n", ent.to_filename(), name);
+            format!("{}{}\u{e9}{}\u{65e5}\n", head, "a".repeat(8191 - head.len()), "b".repeat(8190))
+        }
+        else { format!("{} of {}\n", ent.to_filename(), name) }
+    };
     let mut empties: Vec<(String, usize)> = vec![];
     match kind.as_str() {
         "file" => std::fs::write(&db, "SQLite format 3\0").unwrap(),
